@@ -1249,7 +1249,59 @@ func c13TaskPoolStress(m *vk.Monitor) {
 				}
 			}
 			if len(vs) == 0 {
-				m.Inconclusive("taskpool stress round %d did not quiesce within the watchdog", round)
+				// every accepted task has run, no producer is left, and yet a queue stays in the table:
+				// its idle collection can only be blocked by a reference count that does not return
+				// to zero although nobody holds the queue any more (three agreeing samples)
+				type leak struct {
+					Key  string `json:"flow_key"`
+					Refs int32  `json:"refs"`
+				}
+				var leaks []leak
+				for sample := 0; sample < 3; sample++ {
+					var cur []leak
+					// queues of the table, and queues that are no longer in it but whose convoy
+					// goroutine is still alive (replaced by a successor while still running)
+					cand := map[*UdpTaskQueue]string{}
+					r.pool.queues.Range(func(k, v any) bool {
+						cand[v.(*UdpTaskQueue)] = fmt.Sprint(k)
+						return true
+					})
+					live := map[string]bool{}
+					for _, p := range c13LiveConvoys() {
+						live[p] = true
+					}
+					r.mu.Lock()
+					for q := range r.queues {
+						if _, ok := cand[q]; !ok && live[fmt.Sprintf("%p", q)] {
+							cand[q] = fmt.Sprint(q.key) + " (not in the table any more, convoy still running)"
+						}
+					}
+					r.mu.Unlock()
+					for q, k := range cand {
+						q.enqueueMu.Lock()
+						pend := len(q.ch) + len(q.overflow)
+						q.enqueueMu.Unlock()
+						if n := q.refs.Load(); pend == 0 && n != 0 {
+							cur = append(cur, leak{k, n})
+						}
+					}
+					if sample > 0 && len(cur) != len(leaks) {
+						cur = nil
+					}
+					leaks = cur
+					if len(leaks) == 0 {
+						break
+					}
+					time.Sleep(100 * time.Millisecond)
+				}
+				if len(leaks) > 0 && !reported["s/refleak"] {
+					reported["s/refleak"] = true
+					m.Violation("taskpool/queue-refcount-out-of-sync/stress",
+						fmt.Sprintf("all accepted tasks have run and no producer is active, but %d queue(s) stay in the table with a reference count that is not zero (first: refs=%d): the count no longer equals the number of holders, so the queue is never collected (or is collected while a producer still holds it)", len(leaks), leaks[0].Refs),
+						map[string]any{"round": round, "config": cfg, "queues": leaks})
+				} else if len(leaks) == 0 {
+					m.Inconclusive("taskpool stress round %d did not quiesce within the watchdog", round)
+				}
 			}
 			break
 		}
@@ -1289,5 +1341,96 @@ func c13TaskPoolStress(m *vk.Monitor) {
 	}
 	for i := 1; i <= 6; i++ {
 		m.Count(fmt.Sprintf("a_hook_utp%d", i), hitsTotal[i])
+	}
+}
+
+// c13TaskPoolFreshKeyHerd: the first packets of a new (or just collected) flow arrive together.
+// Producers are lined up on a spin barrier and each emits its tasks to the same key whose queue
+// does not exist (any more); the queue's creation, the creator's own reference and the references
+// of the producers that find the freshly published queue race here. Judged at quiescence by the
+// log oracle (exactly once, order, right queue), with the reference-count oracle of the stress
+// rounds when the pool does not quiesce.
+func c13TaskPoolFreshKeyHerd(m *vk.Monitor) {
+	rng := vk.NewRand(0xC13F)
+	oldAging := UdpTaskPoolAgingTime
+	defer func() { UdpTaskPoolAgingTime = oldAging }()
+	UdpTaskPoolAgingTime = 100 * time.Microsecond
+	iters := vk.Scale(1500, 30000)
+	nkeys := 4
+	r := c13NewRun(nkeys)
+	reported := map[string]bool{}
+	for it := 0; it < iters && m.Violations() < 5; it++ {
+		np := 3 + rng.IntN(6)
+		flow := rng.IntN(nkeys)
+		per := 1 + rng.IntN(2)
+		var ready atomic.Int32
+		var wg sync.WaitGroup
+		for p := 0; p < np; p++ {
+			tasks := make([]*c13Task, per)
+			for i := range tasks {
+				tasks[i] = r.newTask(flow, fmt.Sprintf("H%d.%d", it, p), i)
+			}
+			wg.Add(1)
+			go func(tasks []*c13Task) {
+				defer wg.Done()
+				ready.Add(1)
+				for ready.Load() < int32(np) { // spin barrier: arrive at EmitTask together
+				}
+				for _, t := range tasks {
+					r.emit(t)
+				}
+			}(tasks)
+		}
+		wg.Wait()
+		m.Count("a_herd_iterations", 1)
+		// let the queue be collected between iterations now and then (re-creation), not always
+		if rng.IntN(3) != 0 {
+			continue
+		}
+		ok, _ := r.quiesce(c13Watchdog, nil, nil)
+		if !ok {
+			vs := r.check(false)
+			for _, v := range vs {
+				if !reported[v.Sig] {
+					reported[v.Sig] = true
+					m.Violation(v.Sig+"/fresh-key-herd", v.What+" (pool did not quiesce afterwards)", map[string]any{"iteration": it, "producers": np, "detail": v.Witness})
+				}
+			}
+			if len(vs) == 0 {
+				var leaks []string
+				live := map[string]bool{}
+				for _, p := range c13LiveConvoys() {
+					live[p] = true
+				}
+				r.mu.Lock()
+				for q := range r.queues {
+					if n := q.refs.Load(); n != 0 && live[fmt.Sprintf("%p", q)] {
+						leaks = append(leaks, fmt.Sprintf("queue %p key=%v refs=%d", q, q.key, n))
+					}
+				}
+				r.mu.Unlock()
+				if len(leaks) > 0 {
+					m.Violation("taskpool/queue-refcount-out-of-sync/fresh-key-herd",
+						fmt.Sprintf("every accepted task has run and no producer is active, but %d convoy(s) stay alive on a queue whose reference count is not zero: the count no longer equals the number of holders", len(leaks)),
+						map[string]any{"iteration": it, "producers": np, "queues": leaks})
+				} else {
+					m.Inconclusive("fresh-key herd iteration %d did not quiesce within the watchdog", it)
+				}
+			}
+			return
+		}
+		m.Count("a_herd_quiescent_checks", 1)
+		for _, v := range r.check(true) {
+			if !reported[v.Sig] {
+				reported[v.Sig] = true
+				m.Violation(v.Sig+"/fresh-key-herd", v.What, map[string]any{"iteration": it, "producers": np, "detail": v.Witness})
+			}
+		}
+		r.mu.Lock()
+		m.Eval(len(r.tasks))
+		r.mu.Unlock()
+		if len(reported) > 0 {
+			return
+		}
 	}
 }
